@@ -46,6 +46,16 @@ def gen_link(rng):
             "lrt": rng.choice([0, 1, 2, 3, 3]), "client_role": rng.choice("IT")}
 
 
+def gen_background(rng):
+    """a second data link connection with its own traffic on the same link (gives the frame
+    aggregation several I PDUs to pack): message sizes, MIU and RW of the receiving socket"""
+    if rng.random() < 0.6:
+        return None
+    miu = rng.choice([128, 128, 300, 2175])
+    return {"recv_miu": miu, "recv_buf": rng.choice([1, 2, 4, 15]),
+            "sizes": [rng.choice([0, 1, 7, 50, 127, 128]) for _ in range(rng.choice([3, 8, 20]))]}
+
+
 def gen_policy(rng, receiver):
     """receiver: the side ('c' | 's') that gets the long message"""
     k = rng.random()
@@ -122,6 +132,7 @@ def gen_full_snep(ck, rng, ndefs):
     sc["cacc"] = rng.choice([0x10000, 0x10000, 0x10000, r0, r0 + 1, max(0, r0 - 1)])
     sc["auto"], sc["close"], sc["ops"] = auto, auto or rng.random() < 0.8, ops
     sc["policy"] = gen_policy(rng, "c" if long_response and rng.random() < 0.6 else "s")
+    sc["background"] = gen_background(rng)
     return sc
 
 
@@ -149,6 +160,7 @@ def gen_full_ho(ck, rng, ndefs):
         reqs.append((rq, rp))
     sc["reqs"] = reqs
     sc["policy"] = gen_policy(rng, rng.choice("cs"))
+    sc["background"] = gen_background(rng)
     return sc
 
 
@@ -169,6 +181,61 @@ def quiesce(st, sf):
     cv = sf.SCondition(st.sched)
     with cv:
         cv.wait(1.0)
+
+
+class Background(object):
+    """sender on the client's device, sink on the server's device"""
+
+    def __init__(self, sc):
+        self.cfg = sc.get("background")
+        self.msgs = [bytes((7 * i + k) & 255 for k in range(n)) for i, n in enumerate(self.cfg["sizes"])] if self.cfg else []
+        self.got, self.sent, self.listen = [], [], None
+
+    def startup(self, llc):
+        if self.cfg:
+            s = nfc.llcp.Socket(llc, nfc.llcp.DATA_LINK_CONNECTION)
+            s.setsockopt(nfc.llcp.SO_RCVMIU, self.cfg["recv_miu"])
+            s.setsockopt(nfc.llcp.SO_RCVBUF, self.cfg["recv_buf"])
+            s.bind("urn:nfc:sn:bg")
+            s.listen(backlog=1)
+            self.listen = s
+
+    def sink(self):
+        try:
+            s = self.listen.accept()
+        except nfc.llcp.Error:
+            return "no connection"
+        try:
+            while True:
+                d = s.recv()
+                if d is None:
+                    return "closed"
+                self.got.append(bytes(d))
+        except nfc.llcp.Error as e:
+            return "error %s" % e
+        finally:
+            s.close()
+
+    def sender(self, llc):
+        s = nfc.llcp.Socket(llc, nfc.llcp.DATA_LINK_CONNECTION)
+        s.connect("urn:nfc:sn:bg")
+        miu = s.getsockopt(nfc.llcp.SO_SNDMIU)
+        try:
+            for m in self.msgs:
+                m = m[:miu]
+                if not s.send(m):
+                    return "send refused"
+                self.sent.append(m)
+            return "sent"
+        finally:
+            s.close()
+
+    def spawn(self, side, llc, spawn):
+        if self.cfg:
+            if side == "s":
+                spawn("s-bg", self.sink)
+            else:
+                spawn("c-bg", lambda: self.sender(llc))
 
 
 def finish_observation(st, sf, sc, verdict, cs, ob):
@@ -197,6 +264,8 @@ def finish_observation(st, sf, sc, verdict, cs, ob):
     ob["discarded"] = {"c": st.discards.get(id(cs.get("csock")), 0), "s": st.discards.get(id(cs.get("ssock")), 0),
                        "any": sum(st.discards.values())}
     ob["verdict"] = verdict
+    bg = cs.get("bg")
+    ob["background"] = {"sent": list(bg.sent), "got": list(bg.got)} if bg is not None and bg.cfg else None
     ob["sched"] = {"steps": st.sched.steps, "ticks": st.sched.ticks, "timeouts": st.sched.timeouts,
                    "frames": len(st.air.wire), "maxframe": st.air.maxlen, "end": dict(st.sched.end_state)}
     ob["threads"] = {t.name: thread_state(t) for t in st.sched.threads}
@@ -225,8 +294,11 @@ def run_full_snep(sc):
             r = cur[0]["ret"]
             return r if isinstance(r, int) else list(ndef.message_decoder(r, known_types={}))
 
+    cs["bg"] = Background(sc)
+
     def startup_srv(llc):
         cs["srv"] = Srv(llc, max_acceptable_length=sc["maxacc"], recv_miu=sc["recv_miu"], recv_buf=sc["recv_buf"])
+        cs["bg"].startup(llc)
 
     def client_app(llc):
         from props.c06 import canon_result
@@ -254,9 +326,11 @@ def run_full_snep(sc):
 
     def conn_srv(llc, spawn):
         cs["listen"] = spawn("s-listen", cs["srv"].run)
+        cs["bg"].spawn("s", llc, spawn)
 
     def conn_cli(llc, spawn):
         cs["client"] = spawn("c-app", lambda: client_app(llc))
+        cs["bg"].spawn("c", llc, spawn)
 
     verdict = st.run({s: startup_srv, c: lambda llc: None}, {s: conn_srv, c: conn_cli})
     out = {"c": thread_state(cs.get("client")),
@@ -287,8 +361,11 @@ def run_full_ho(sc):
             got.append(b"".join(ndef.message_encoder(records)))
             return list(ndef.message_decoder(cur[0][1], "relax"))
 
+    cs["bg"] = Background(sc)
+
     def startup_srv(llc):
         cs["srv"] = Srv(llc, recv_miu=sc["recv_miu"], recv_buf=sc["recv_buf"])
+        cs["bg"].startup(llc)
 
     def client_app(llc):
         from props.c06 import canon_result
@@ -313,9 +390,11 @@ def run_full_ho(sc):
 
     def conn_srv(llc, spawn):
         cs["listen"] = spawn("s-listen", cs["srv"].run)
+        cs["bg"].spawn("s", llc, spawn)
 
     def conn_cli(llc, spawn):
         cs["client"] = spawn("c-app", lambda: client_app(llc))
+        cs["bg"].spawn("c", llc, spawn)
 
     verdict = st.run({s: startup_srv, c: lambda llc: None}, {s: conn_srv, c: conn_cli})
     out = {"c": thread_state(cs.get("client")),
@@ -347,6 +426,11 @@ def stack_oracle(sc, ob):
                     "TransmissionControlObject.enqueue discarded %d I PDU(s) of the client socket and %d of the server socket "
                     "(receive window %s / %s): the peer was allowed to send more than the receive queue holds"
                     % (ob["discarded"]["c"], ob["discarded"]["s"], sc.get("c_recv_buf", 1), sc["recv_buf"])))
+    bg = ob.get("background")
+    if bg is not None and bg["got"] != bg["sent"]:
+        bad.append(("fullstack-background-connection-not-intact", "a second data link connection on the same link carried %d "
+                    "messages, its receiver got %d (sizes %s / %s)" % (len(bg["sent"]), len(bg["got"]),
+                                                                      [len(x) for x in bg["sent"]][:24], [len(x) for x in bg["got"]][:24])))
     for side, peer in (("c", "s"), ("s", "c")):
         sent = ob["link"].log[side]
         air = [d for ns, nr, d in ob["air"][side]]
